@@ -172,7 +172,21 @@ class AEval:
             return len(self.ev(args[0]))
         if fn == "bool" and len(args) == 1:
             return self.truth(self.ev(args[0]))
-        if fn in ("any", "all") and len(args) == 1 and not isinstance(args[0], (ast.GeneratorExp, ast.ListComp)):
+        if fn in ("any", "all") and len(args) == 1:
+            if isinstance(args[0], (ast.GeneratorExp, ast.ListComp)) and len(args[0].generators) == 1 and isinstance(args[0].generators[0].target, ast.Name):
+                g = args[0].generators[0]
+                seq = self.ev(g.iter)
+                res = []
+                outer = self.atom
+                for item in seq:
+                    def atom2(node, item=item, name=g.target.id, outer=outer):
+                        if isinstance(node, ast.Name) and node.id == name:
+                            return item
+                        return outer(node)
+                    sub = AEval(atom2)
+                    if all(sub.truth(sub.ev(c)) for c in g.ifs):
+                        res.append(sub.truth(sub.ev(args[0].elt)))
+                return (any if fn == "any" else all)(res)
             v = self.ev(args[0])
             return (any if fn == "any" else all)(self.truth(x) for x in v)
         if fn == "type" and len(args) == 1:
@@ -360,3 +374,112 @@ class Reach:
                 if (field == "body" and c is False) or (field == "orelse" and c is True):
                     return False
         return True
+
+
+def reaching_def(fn, name, at_stmt):
+    """value expression of the latest plain assignment `name = <expr>` that definitely reaches `at_stmt` (same or enclosing block, no
+    intervening conditional rebinding), else None"""
+    path = path_to(fn.body, at_stmt)
+    if path is None:
+        return None
+    for (stmts, i, field) in reversed(path):
+        for s in reversed(stmts[:i]):
+            if isinstance(s, ast.Assign) and len(s.targets) == 1 and isinstance(s.targets[0], ast.Name) and s.targets[0].id == name:
+                return s.value
+            # any other statement that may rebind the name makes the definition ambiguous
+            for n in ast.walk(s):
+                if isinstance(n, ast.Name) and n.id == name and isinstance(n.ctx, ast.Store):
+                    return None
+        # entering a loop whose body may rebind the name
+        s = stmts[i]
+        if isinstance(s, (ast.For, ast.While)) and field == "body":
+            for n in ast.walk(s):
+                if isinstance(n, ast.Name) and n.id == name and isinstance(n.ctx, ast.Store):
+                    if not (isinstance(s, ast.For) and any(x is n for x in ast.walk(s.target))):
+                        pass
+            if isinstance(s, ast.For) and any(isinstance(x, ast.Name) and x.id == name for x in ast.walk(s.target)):
+                return None
+    return None
+
+
+def resolved_text(fn, e, at_stmt, depth=0):
+    """unparse of e after replacing local names by their reaching definitions (aliases only: names, attribute chains, calls without side effects)"""
+    class Sub(ast.NodeTransformer):
+        def visit_Name(self, node):
+            if isinstance(node.ctx, ast.Load) and depth < 4:
+                d = reaching_def(fn, node.id, at_stmt)
+                if d is not None and not any(isinstance(x, (ast.Lambda, ast.ListComp, ast.GeneratorExp)) for x in ast.walk(d)):
+                    dstmt = None
+                    for s in ast.walk(fn):
+                        if isinstance(s, ast.Assign) and s.value is d:
+                            dstmt = s
+                    import copy as _c
+                    sub = resolved_text(fn, d, dstmt if dstmt is not None else at_stmt, depth + 1)
+                    return ast.parse(sub, mode="eval").body
+            return node
+    import copy
+    t = Sub().visit(copy.deepcopy(e))
+    return " ".join(u(t).split())
+
+
+def stmt_of(fn, node):
+    """innermost statement of fn containing node"""
+    best = None
+    for s in ast.walk(fn):
+        if isinstance(s, ast.stmt):
+            for n in ast.walk(s):
+                if n is node:
+                    if best is None or (s.lineno, -s.end_lineno) >= (best.lineno, -best.end_lineno):
+                        if not isinstance(s, (ast.If, ast.For, ast.While, ast.Try, ast.With, ast.FunctionDef)) or _in_header(s, node):
+                            best = s
+                    break
+    return best
+
+
+def _in_header(s, node):
+    heads = []
+    if isinstance(s, (ast.If, ast.While)):
+        heads = [s.test]
+    elif isinstance(s, ast.For):
+        heads = [s.iter, s.target]
+    elif isinstance(s, ast.With):
+        heads = [i.context_expr for i in s.items]
+    return any(n is node for h in heads for n in ast.walk(h))
+
+
+def definitely_bound(stmts):
+    """names definitely bound by plain assignments when the statement list completes normally"""
+    b = set()
+    for s in stmts:
+        if isinstance(s, ast.Assign):
+            for t in s.targets:
+                if isinstance(t, ast.Name):
+                    b.add(t.id)
+                elif isinstance(t, (ast.Tuple, ast.List)):
+                    b |= {x.id for x in t.elts if isinstance(x, ast.Name)}
+        elif isinstance(s, ast.If):
+            a1, a2 = definitely_bound(s.body), definitely_bound(s.orelse)
+            t1, t2 = always_raises(s.body), (always_raises(s.orelse) if s.orelse else False)
+            if t1 and not t2:
+                b |= a2
+            elif t2 and not t1:
+                b |= a1
+            elif not t1 and not t2:
+                b |= (a1 & a2)
+        elif isinstance(s, ast.Try):
+            outs = [definitely_bound(s.body) | definitely_bound(s.orelse)]
+            for h in s.handlers:
+                if not always_raises(h.body):
+                    outs.append(definitely_bound(h.body))
+            b |= set.intersection(*outs)
+            b |= definitely_bound(s.finalbody)
+    return b
+
+
+def handler_ok(try_stmt, handler):
+    """an exception handler does not absorb an error: it re-raises on every path, or it is a fallback that (re)computes everything the
+    protected block would have bound and raises when that fails too"""
+    if always_raises(handler.body):
+        return True
+    need = definitely_bound(try_stmt.body)
+    return bool(need) and need <= definitely_bound(handler.body)
